@@ -14,6 +14,18 @@ CHECKS = {
              "property on every implementation output.",
         ref="4 C05", technique="Coq proof (induction on the retry measure / per-chip pointer invariant) + py2v translation + vm_compute correspondence",
         note=TB),
+    "C17": dict(
+        text="Partial by nature. Proof part: the inventory of every carrier of cross-call state in rig/ (module-level "
+             "mutables, mutable defaults, mutable class attributes, with their syntactic write sites and escapes) is "
+             "regenerated from the source on every run and proved equal to what the model accounts for; the one written "
+             "carrier (the concentric-hexagon memo) is proved transparent for every history of calls and every underlying "
+             "function; copied defaults are proved unchanged. Differential part: every argument of every call of the P&R "
+             "chain (7 placer configurations), ordered covering, BitField, controller construction is snapshotted "
+             "before/after, and every call made after a random history must equal the same call made first in a fresh "
+             "interpreter.",
+        ref="4 C17", technique="Coq proof over a source-regenerated shared-state inventory + memo transparency theorem; differential history/fresh-interpreter runs with deep argument snapshots",
+        note=TB + " CPython-level aliasing outside the inventoried carriers is covered only by the differential run; the "
+             "write-site/escape counts are a syntactic (ast) approximation."),
 }
 NOT_YET = {}
 def main():
